@@ -67,6 +67,10 @@ class CallMixin:
                 return VOpaque(fn.py, 'excobj')
             if fn.tag == 'constmethod':
                 return self.const_method(fn, args, fr, node)
+            if fn.tag == 'kwargsmethod':
+                if fn.py[1] == 'items':
+                    return VTuple([VTuple([VOpaque(k, 'const'), v]) for k, v in fn.py[0].items()])
+                raise Unsupported(f"kwargs.{fn.py[1]}")
             if fn.tag == 'opaque':
                 key = '.'.join(map(str, fn.py)) if isinstance(fn.py, tuple) else str(fn.py)
                 c = self.reg.get(key)
@@ -500,7 +504,7 @@ class CallMixin:
                 zargs = []
                 for a in node.args:
                     v = self.ev(a, fr)
-                    zargs.append(v.z if isinstance(v, (VInt, VRef)) else (v.z if isinstance(v, VBool) else None))
+                    zargs.append(v.z if isinstance(v, (VInt, VRef, VOptInt)) else (v.z if isinstance(v, VBool) else None))
                     if zargs[-1] is None:
                         if isinstance(v, VNone):
                             zargs[-1] = z3.IntVal(0)
@@ -584,7 +588,11 @@ class CallMixin:
         if is_ref:
             guards.append(iv > 0)
             name = 'forall'
-        b = zbool_(self.truth(self.ev(body, inner), inner))
+        self.in_quant += 1
+        try:
+            b = zbool_(self.truth(self.ev(body, inner), inner))
+        finally:
+            self.in_quant -= 1
         if name == 'forall':
             return VBool(z3.ForAll([iv], z3.Implies(z3.And(guards), b) if guards else b))
         return VBool(z3.Exists([iv], z3.And(guards + [b])))
@@ -748,6 +756,15 @@ class CallMixin:
         if name == 'getattr':
             if isinstance(args[1], VOpaque) and args[1].tag == 'const':
                 return self.getattr(args[0], args[1].py, fr, node)
+            if isinstance(args[1], VOpaque) and args[1].tag == 'str' and isinstance(args[1].py, list) \
+                    and len(args[1].py) == 2 and isinstance(args[1].py[0], str) and isinstance(args[1].py[1], VInt) \
+                    and args[1].py[0] in getattr(self.reg, 'getattr_templates', {}) and isinstance(args[0], VRef):
+                # getattr(obj, f'<prefix>{i}'): modelled as the i-th element of a declared per-object table
+                fld = self.reg.getattr_templates[args[1].py[0]]
+                tab = self.heap_get(args[0], fld)
+                i = args[1].py[1].z
+                self.oblige('no-raise', z3.And(i >= 0, i < tab.n), fr, node, info='AttributeError')
+                return seq_get(tab, i)
         raise Unsupported(f"builtin {name} with {len(args)} args")
 
     def minmax_seq(self, name, s, fr, node):
